@@ -235,4 +235,49 @@ theorem foldRB_sum (vs : List Val) (h : absIntSum (nums noParse vs) < 9223372036
       simp only [Option.getD]
       exact hsum b.sum hs
 
+theorem sumStep_toCV (x y : Num) : sumStep exact x.toCV y.toCV = (addSum exact x y).toCV := by
+  cases x <;> cases y <;> simp [sumStep, addSum, Num.toCV]
+
+/-- merging the Sum cells of two buckets gives the Sum cell of the concatenation -/
+theorem sumStep_rbSum (nx ny : List Num) (h : absIntSum (nx ++ ny) < 9223372036854775808) :
+    sumStep exact (rbSum nx) (rbSum ny) = rbSum (nx ++ ny) := by
+  by_cases ey : ny.isEmpty
+  · have : ny = [] := List.isEmpty_iff.mp ey
+    subst this
+    rw [List.append_nil]
+    exact sumStep_nonnum nx _ (Or.inl (by simp [rbSum]))
+  · by_cases ex : nx.isEmpty
+    · have : nx = [] := List.isEmpty_iff.mp ex
+      subst this
+      simp only [List.nil_append]
+      unfold rbSum
+      simp only [ey, List.isEmpty_nil, if_true]
+      cases sumSpec ny <;> simp [sumStep, Num.toCV]
+    · have e3 : (nx ++ ny).isEmpty = false := by
+        cases hx : nx with
+        | nil => simp [hx] at ex
+        | cons a r => rfl
+      unfold rbSum
+      simp only [ex, ey, e3, Bool.false_eq_true, if_false]
+      rw [sumStep_toCV, addSum_sumSpec nx ny h]
+
+/-- bucket merge: record counts add up, Sum cells merge to the Sum cell of the concatenation — every pair of lists -/
+theorem mergeRB_n_sum (xs ys : List Val) (h : absIntSum (nums noParse (xs ++ ys)) < 9223372036854775808) :
+    (mergeRB exact (foldRB exact xs) (foldRB exact ys)).map (fun b => (b.n, b.sum)) =
+      (foldRB exact (xs ++ ys)).map (fun b => (b.n, b.sum)) := by
+  have hx : absIntSum (nums noParse xs) < 9223372036854775808 := by
+    rw [nums_append, absIntSum_append] at h; omega
+  have hy : absIntSum (nums noParse ys) < 9223372036854775808 := by
+    rw [nums_append, absIntSum_append] at h; omega
+  rcases foldRB_sum xs hx with ⟨rfl, hxn⟩ | ⟨a, ha, han, hxne, has⟩
+  · rw [hxn]; simp [mergeRB]
+  · rcases foldRB_sum ys hy with ⟨rfl, hyn⟩ | ⟨b, hb, hbn, hyne, hbs⟩
+    · rw [hyn, ha]; simp [mergeRB, ha]
+    · rcases foldRB_sum (xs ++ ys) h with ⟨hnil, _⟩ | ⟨c, hc, hcn, _, hcs⟩
+      · exact absurd (List.append_eq_nil_iff.mp hnil).1 hxne
+      · rw [ha, hb, hc]
+        rw [nums_append] at h hcs
+        simp only [mergeRB, Option.map]
+        rw [han, hbn, hcn, has, hbs, hcs, sumStep_rbSum _ _ h, List.length_append]
+
 end SigModel.Stats
